@@ -626,6 +626,17 @@ class FnDeps:
             res[l] = frozenset(x for x in acc if not (x[0] == "p" and x[1] == l))
         return res
 
+    def out_param_path(self, l, path):
+        """what may have been written through field `path` of the `&mut` parameter l (e.g. the writer held by a formatter
+        struct), joined over all return blocks; the field's own initial content is not reported"""
+        self.run()
+        path = tuple(path)
+        acc = set()
+        for bi, b in enumerate(self.fn.blocks):
+            if b["term"]["t"] == "return" and bi in self.out_state:
+                acc |= self.read(self.out_state[bi], l, path)
+        return frozenset(x for x in acc if not (x[0] == "p" and x[1] == l and tuple(x[2][:len(path)]) == path))
+
     def summary(self, out_paths):
         res = {op: set() for op in out_paths}
         for (_bi, _kind, deps, _ln, _c) in self.alternatives(out_paths):
